@@ -244,7 +244,7 @@ func (w *World) Start() error {
 		Client:            w.kube,
 		GalaxyClient:      w.galaxy,
 		ExtClient:         embedExt,
-		DynamicClient:     dynfake.NewSimpleDynamicClient(runtime.NewScheme()),
+		DynamicClient:     dynfake.NewSimpleDynamicClientWithCustomListKinds(runtime.NewScheme(), dynListKinds),
 		PodLister:         corelisters.NewPodLister(w.podIdx),
 		NodeLister:        corelisters.NewNodeLister(w.nodeIdx),
 		StatefulSetLister: appslisters.NewStatefulSetLister(w.stsIdx),
@@ -466,6 +466,14 @@ func (w *World) SetPoolObj(name string, size int) {
 	p := &v1alpha1.Pool{ObjectMeta: metav1.ObjectMeta{Name: name, Namespace: "kube-system"}, Size: size}
 	w.PoolObjs[name] = p
 	_ = w.poolIdx.Update(p.DeepCopy())
+}
+
+// dynListKinds: the custom resources the harnesses use, for the fake dynamic client (which refuses to LIST anything else).
+var dynListKinds = map[schema.GroupVersionResource]string{
+	{Group: "apps.tkestack.io", Version: "v1", Resource: "tapps"}:       "TAppList",
+	{Group: "apps.tkestack.io", Version: "v1alpha1", Resource: "tapps"}: "TAppList",
+	{Group: "apps.tkestack.io", Version: "v1", Resource: "tjobs"}:       "TJobList",
+	{Group: "apps.tkestack.io", Version: "v1alpha1", Resource: "tjobs"}: "TJobList",
 }
 
 // AddCRD puts a CustomResourceDefinition with a scale subresource into the extension informer cache (a TApp-like workload kind).
